@@ -175,6 +175,53 @@ pub fn tool(cmd: &str, args: &[String]) -> i32 {
             println!("verify at squared norm {} (= floor(beta^2) {:+}): returned {}, Algorithm 16 says {}", norm, delta, got, expect);
             if got != expect { println!("VERDICT-DIFFERS"); 3 } else { 0 }
         }
+        "verify-case" => {
+            // verify-case <N> <m hex> <salt hex> <body hex> <h as big-endian u16 hex>
+            let n: usize = args[0].parse().unwrap();
+            let m = unhex(&args[1]);
+            let salt: [u8; 40] = unhex(&args[2]).try_into().unwrap();
+            let body = unhex(&args[3]);
+            let hb = unhex(&args[4]);
+            let h: Vec<i64> = hb.chunks(2).map(|c| (((c[0] as u16) << 8) | c[1] as u16) as i64).collect();
+            let r = if n == 512 { crate::falcon::verif::verify_case::<512>(&m, salt, &body, &h) }
+                    else { crate::falcon::verif::verify_case::<1024>(&m, salt, &body, &h) };
+            match r {
+                Ok(()) => { println!("verify agrees with Algorithm 16 on this case"); 0 }
+                Err(why) => { println!("REPRODUCED {}", why); 1 }
+            }
+        }
+        "decompress-case" => {
+            let x = unhex(&args[0]);
+            let n: usize = args[1].parse().unwrap();
+            match crate::falcon::verif::codec_case(&x, n) {
+                Ok(()) => { println!("decompress agrees with Algorithm 18 on this case"); 0 }
+                Err(why) => { println!("REPRODUCED {}", why); 1 }
+            }
+        }
+        "compress-case" => {
+            let v: Vec<i16> = args[0].split(';').filter(|s| !s.is_empty()).map(|s| s.parse().unwrap()).collect();
+            let l: usize = args[1].parse().unwrap();
+            match crate::falcon::verif::compress_case(&v, l) {
+                Ok(()) => { println!("compress agrees with Algorithm 17 on this case"); 0 }
+                Err(why) => { println!("REPRODUCED {}", why); 1 }
+            }
+        }
+        "search-codec" => {
+            let seed: u64 = args.get(0).and_then(|s| s.parse().ok()).unwrap_or(0);
+            match crate::falcon::verif::search_codec(seed) {
+                Some(d) => { println!("WITNESS {}", d); 1 }
+                None => { println!("NO-WITNESS (bounded directed search: all 1- and 2-byte strings, perturbed encodings of boundary vectors, long runs, tight alignments)"); 0 }
+            }
+        }
+        "search-verify" => {
+            let seed: u64 = args.get(0).and_then(|s| s.parse().ok()).unwrap_or(0);
+            let w = crate::falcon::verif::search_verify::<512>(seed)
+                .or_else(|| crate::falcon::verif::search_verify::<1024>(seed));
+            match w {
+                Some(d) => { println!("WITNESS {}", d); 1 }
+                None => { println!("NO-WITNESS (bounded directed search over crafted keys, 2 variants x 12 x 4 cases)"); 0 }
+            }
+        }
         _ => {
             eprintln!("unknown subcommand {}", cmd);
             2
